@@ -551,6 +551,213 @@ theorem parseExt_fuel (s : Bytes) (acc : List Ext) : (parseExtValueF (s.length +
   parseExtValueF_some _ _ _ (Nat.lt_succ_self _)
 
 
+/-! ## parseExtensions reads back the extension lists the grammar writes -/
+
+/-- A parameter as the library itself writes it: `; key` or `; key=value` (key and value tokens; an empty value = no `=`). -/
+def renderParam (p : Bytes × Bytes) : Bytes := [59, 32] ++ p.1 ++ (if p.2.isEmpty then [] else 61 :: p.2)
+
+/-- An extension: its name followed by its parameters. -/
+def renderExt (e : Bytes × List (Bytes × Bytes)) : Bytes := e.1 ++ e.2.flatMap renderParam
+
+/-- An extension list: the extensions separated by `, `. -/
+def renderExts : List (Bytes × List (Bytes × Bytes)) → Bytes
+  | [] => []
+  | [e] => renderExt e
+  | e :: e' :: es => renderExt e ++ [44, 32] ++ renderExts (e' :: es)
+
+def isTok (t : Bytes) : Prop := t ≠ [] ∧ t.all isTokenOctet = true
+
+/-- what the parser makes of one extension: `""` ↦ name, then the parameters in order (`setKV`: a repeated key keeps its place, last value) -/
+def extOf (e : Bytes × List (Bytes × Bytes)) : Ext := e.2.foldl (fun acc p => setKV acc p.1 p.2) [([], e.1)]
+
+theorem nextToken_tok (t rest : Bytes) (ht : t.all isTokenOctet = true) (hr : rest = [] ∨ ∃ c r, rest = c :: r ∧ isTokenOctet c = false) :
+    nextToken (t ++ rest) = (t, rest) := by
+  unfold nextToken
+  rw [takeWhile_all_append _ _ _ ht, dropWhile_all_append _ _ _ ht]
+  rcases hr with rfl | ⟨c, r, rfl, hc⟩
+  · simp
+  · simp [hc]
+
+
+/-- what may follow a parameter or an extension name: nothing, a comma, a semicolon -/
+def TailOK (t : Bytes) : Prop := t = [] ∨ ∃ r, t = 44 :: r ∨ t = 59 :: r
+
+theorem TailOK.head_not_token {t : Bytes} (h : TailOK t) : t = [] ∨ ∃ c r, t = c :: r ∧ isTokenOctet c = false := by
+  rcases h with rfl | ⟨r, rfl | rfl⟩
+  · exact Or.inl rfl
+  · exact Or.inr ⟨44, r, rfl, by decide⟩
+  · exact Or.inr ⟨59, r, rfl, by decide⟩
+
+theorem TailOK.skipSpace {t : Bytes} (h : TailOK t) : skipSpace t = t := by
+  rcases h with rfl | ⟨r, rfl | rfl⟩
+  · rfl
+  · exact dropWhile_head_false _ _ _ (by decide)
+  · exact dropWhile_head_false _ _ _ (by decide)
+
+theorem TailOK.badStart {t : Bytes} (h : TailOK t) : badStart t = false := by
+  rcases h with rfl | ⟨r, rfl | rfl⟩ <;> rfl
+
+theorem TailOK.optValue {t : Bytes} (h : TailOK t) : optValue t = ([], t) := by
+  rcases h with rfl | ⟨r, rfl | rfl⟩ <;> rfl
+
+theorem tok_skipSpace (t rest : Bytes) (ht : isTok t) : skipSpace (t ++ rest) = t ++ rest :=
+  skipSpace_token t rest ht.1 ht.2
+
+theorem tok_head (t : Bytes) (ht : isTok t) : ∃ c r, t = c :: r ∧ isTokenOctet c = true := by
+  obtain ⟨hne, hall⟩ := ht
+  cases t with
+  | nil => exact absurd rfl hne
+  | cons c r =>
+    simp only [List.all_cons, Bool.and_eq_true] at hall
+    exact ⟨c, r, rfl, hall.1⟩
+
+theorem nextTokenOrQuoted_tok (v rest : Bytes) (hv : isTok v) (hr : TailOK rest) :
+    nextTokenOrQuoted (v ++ rest) = (v, rest) := by
+  obtain ⟨c, r, rfl, hc⟩ := tok_head v hv
+  have h34 : c ≠ 34 := by
+    intro h; subst h; revert hc; decide
+  have : nextTokenOrQuoted (c :: r ++ rest) = nextToken (c :: r ++ rest) := by
+    unfold nextTokenOrQuoted
+    split
+    · rename_i t heq
+      simp only [List.cons_append, List.cons.injEq] at heq
+      exact absurd heq.1 h34
+    · rfl
+  rw [this]
+  exact nextToken_tok _ _ hv.2 hr.head_not_token
+
+def ParamOK (p : Bytes × Bytes) : Prop := isTok p.1 ∧ (p.2 = [] ∨ isTok p.2)
+
+theorem params_tailOK (ps : List (Bytes × Bytes)) (rest : Bytes) (hr : TailOK rest) :
+    TailOK (ps.flatMap renderParam ++ rest) := by
+  cases ps with
+  | nil => simpa using hr
+  | cons p ps' => exact Or.inr ⟨32 :: (p.1 ++ ((if p.2.isEmpty then [] else 61 :: p.2) ++ (ps'.flatMap renderParam ++ rest))), Or.inr (by simp [renderParam, List.append_assoc])⟩
+
+/-- The parameter loop on parameters as the library writes them. -/
+theorem parseParams_rendered (ps : List (Bytes × Bytes)) (hps : ∀ p ∈ ps, ParamOK p) (rest : Bytes) (hr : rest = [] ∨ ∃ r, rest = 44 :: r) :
+    ∀ (ext : Ext) (fuel : Nat), (ps.flatMap renderParam ++ rest).length < fuel →
+      parseParamsF fuel (ps.flatMap renderParam ++ rest) ext = .ok (ps.foldl (fun acc p => setKV acc p.1 p.2) ext) rest := by
+  have hrT : TailOK rest := by
+    rcases hr with rfl | ⟨r, rfl⟩
+    · exact Or.inl rfl
+    · exact Or.inr ⟨r, Or.inl rfl⟩
+  induction ps with
+  | nil =>
+    intro ext fuel hf
+    cases fuel with
+    | zero => omega
+    | succ n =>
+      simp only [List.flatMap_nil, List.nil_append, List.foldl_nil]
+      unfold parseParamsF
+      rw [hrT.skipSpace]
+      rcases hr with rfl | ⟨r, rfl⟩ <;> rfl
+  | cons p ps' ih =>
+    intro ext fuel hf
+    cases fuel with
+    | zero => omega
+    | succ n =>
+      obtain ⟨hk, hv⟩ := hps p (by simp)
+      have ih' := ih (fun q hq => hps q (by simp [hq]))
+      have htail := params_tailOK ps' rest hrT
+      -- the text of this parameter
+      obtain ⟨k, v⟩ := p
+      simp only at hk hv
+      have hshape : ((k, v) :: ps').flatMap renderParam ++ rest =
+          59 :: 32 :: (k ++ ((if v.isEmpty then [] else 61 :: v) ++ (ps'.flatMap renderParam ++ rest))) := by
+        simp [renderParam, List.append_assoc]
+      rw [hshape] at hf ⊢
+      unfold parseParamsF
+      have h1 : skipSpace (59 :: 32 :: (k ++ ((if v.isEmpty then [] else 61 :: v) ++ (ps'.flatMap renderParam ++ rest))))
+          = 59 :: 32 :: (k ++ ((if v.isEmpty then [] else 61 :: v) ++ (ps'.flatMap renderParam ++ rest))) :=
+        dropWhile_head_false _ _ _ (by decide)
+      rw [h1]
+      simp only
+      have h2 : skipSpace (32 :: (k ++ ((if v.isEmpty then [] else 61 :: v) ++ (ps'.flatMap renderParam ++ rest))))
+          = k ++ ((if v.isEmpty then [] else 61 :: v) ++ (ps'.flatMap renderParam ++ rest)) := by
+        have := skipSpace_ows [32] (k ++ ((if v.isEmpty then [] else 61 :: v) ++ (ps'.flatMap renderParam ++ rest))) (by decide)
+        rw [tok_skipSpace _ _ hk] at this
+        exact this
+      rw [h2]
+      have hne : k.isEmpty = false := by
+        obtain ⟨c, r, rfl, _⟩ := tok_head k hk; rfl
+      rcases hv with rfl | hv
+      · -- no value
+        have h3 : nextToken (k ++ (ps'.flatMap renderParam ++ rest)) = (k, ps'.flatMap renderParam ++ rest) :=
+          nextToken_tok _ _ hk.2 htail.head_not_token
+        simp only [List.isEmpty_nil, ↓reduceIte, List.nil_append, h3, hne, Bool.false_eq_true, htail.skipSpace, htail.optValue, htail.badStart, List.foldl_cons]
+        exact ih' _ n (by simp only [List.isEmpty_nil, ↓reduceIte, List.nil_append, List.length_cons, List.length_append] at hf ⊢; omega)
+      · -- `=value`
+        have hvne : v.isEmpty = false := by
+          obtain ⟨c, r, rfl, _⟩ := tok_head v hv; rfl
+        have h3 : nextToken (k ++ (61 :: v ++ (ps'.flatMap renderParam ++ rest))) = (k, 61 :: v ++ (ps'.flatMap renderParam ++ rest)) :=
+          nextToken_tok _ _ hk.2 (Or.inr ⟨61, _, rfl, by decide⟩)
+        have h4 : skipSpace (61 :: v ++ (ps'.flatMap renderParam ++ rest)) = 61 :: v ++ (ps'.flatMap renderParam ++ rest) :=
+          dropWhile_head_false _ _ _ (by decide)
+        have h5 : optValue (61 :: v ++ (ps'.flatMap renderParam ++ rest)) = (v, ps'.flatMap renderParam ++ rest) := by
+          show optValue (61 :: (v ++ (ps'.flatMap renderParam ++ rest))) = _
+          unfold optValue
+          simp only [tok_skipSpace _ _ hv, nextTokenOrQuoted_tok _ _ hv htail, htail.skipSpace]
+        simp only [hvne, Bool.false_eq_true, ↓reduceIte, h3, hne, h4, h5, htail.badStart, List.foldl_cons]
+        exact ih' _ n (by simp only [hvne, Bool.false_eq_true, ↓reduceIte, List.length_cons, List.length_append] at hf ⊢; omega)
+
+
+def ExtOK (e : Bytes × List (Bytes × Bytes)) : Prop := isTok e.1 ∧ ∀ p ∈ e.2, ParamOK p
+
+theorem parseExtValueF_rendered (es : List (Bytes × List (Bytes × Bytes))) (hne : es ≠ []) (hok : ∀ e ∈ es, ExtOK e) :
+    ∀ (lead : Bytes) (acc : List Ext) (fuel : Nat), lead.all isSpaceOctet = true → (lead ++ renderExts es).length < fuel →
+      parseExtValueF fuel (lead ++ renderExts es) acc = some (acc ++ es.map extOf) := by
+  induction es with
+  | nil => exact absurd rfl hne
+  | cons e es' ih =>
+    intro lead acc fuel hlead hf
+    cases fuel with
+    | zero => omega
+    | succ n =>
+      obtain ⟨hname, hparams⟩ := hok e (by simp)
+      cases es' with
+      | nil =>
+        have hshape : renderExts [e] = e.1 ++ (e.2.flatMap renderParam ++ []) := by simp [renderExts, renderExt]
+        rw [hshape] at hf ⊢
+        unfold parseExtValueF
+        have hT := params_tailOK e.2 [] (Or.inl rfl)
+        rw [skipSpace_ows _ _ hlead, tok_skipSpace _ _ hname, nextToken_tok _ _ hname.2 hT.head_not_token]
+        have hnn : e.1.isEmpty = false := by
+          obtain ⟨c, r, h, _⟩ := tok_head e.1 hname; rw [h]; rfl
+        simp only [hnn, Bool.false_eq_true, ↓reduceIte]
+        rw [parseParams_rendered e.2 hparams [] (Or.inl rfl) _ _ (by omega)]
+        simp [extOf]
+      | cons e' es'' =>
+        have hshape : renderExts (e :: e' :: es'') = e.1 ++ (e.2.flatMap renderParam ++ (44 :: ([32] ++ renderExts (e' :: es'')))) := by
+          simp [renderExts, renderExt, List.append_assoc]
+        rw [hshape] at hf ⊢
+        unfold parseExtValueF
+        have hT := params_tailOK e.2 (44 :: ([32] ++ renderExts (e' :: es''))) (Or.inr ⟨_, Or.inl rfl⟩)
+        rw [skipSpace_ows _ _ hlead, tok_skipSpace _ _ hname, nextToken_tok _ _ hname.2 hT.head_not_token]
+        have hnn : e.1.isEmpty = false := by
+          obtain ⟨c, r, h, _⟩ := tok_head e.1 hname; rw [h]; rfl
+        simp only [hnn, Bool.false_eq_true, ↓reduceIte]
+        rw [parseParams_rendered e.2 hparams _ (Or.inr ⟨_, rfl⟩) _ _ (by omega)]
+        simp only [bne_self_eq_false, Bool.false_eq_true, ↓reduceIte]
+        have := ih (by simp) (fun x hx => hok x (by simp [hx])) [32] (acc ++ [extOf e]) n (by decide)
+          (by simp only [List.length_append, List.length_cons] at hf ⊢; omega)
+        have hx : extOf e = List.foldl (fun acc p => setKV acc p.fst p.snd) [([], e.fst)] e.snd := rfl
+        rw [← hx, this]
+        simp
+
+/-- **parseExtensions reads back what the grammar of RFC 6455 section 9.1 writes**: a list of extensions — names
+and parameter names tokens, parameter values tokens or absent — written as `name; key=value; key, name…` (the
+spelling the library itself uses on both sides) parses to exactly those extensions, names first, parameters as a
+map (a repeated key keeps its last value). -/
+theorem parseExtensions_rendered (es : List (Bytes × List (Bytes × Bytes))) (hne : es ≠ []) (hok : ∀ e ∈ es, ExtOK e) :
+    parseExtensions [renderExts es] = es.map extOf := by
+  unfold parseExtensions parseExtValue
+  simp only [List.foldl_cons, List.foldl_nil]
+  have := parseExtValueF_rendered es hne hok [] [] ((renderExts es).length + 1) rfl (by simp)
+  simp only [List.nil_append] at this
+  rw [this]; rfl
+
+
 /-! ## ws URIs -/
 
 theorem cutAt_none (c : UInt8) (a : Bytes) (h : a.contains c = false) : cutAt c a = none := by
